@@ -5,6 +5,7 @@ mod fmt_cases;
 mod green_cases;
 mod intern_cases;
 mod red_cases;
+mod serde_cases;
 mod interners;
 mod syn;
 mod token_cases;
@@ -48,6 +49,8 @@ fn run_line(line: &str) -> String {
         "Y" => green_cases::run_y(&args),
         "I" => intern_cases::run_case(&args),
         "Q" => token_cases::run_q(&args),
+        "Z" => serde_cases::run_z(&args),
+        "W" => serde_cases::run_w(&args),
         "N" => red_cases::run_case(&args),
         "P" => intern_cases::run_concurrent(&args),
         "L" => {
